@@ -395,4 +395,28 @@ theorem escaped_name_over_limit_roundtrips (sd : Bytes → UInt64 × Nat) (fmt17
   · simp only [JVal.wf, keysSorted, wfKvs, hkv, Bool.and_self]
   · exact ⟨by rw [hkl]; decide, trivial, trivial⟩
 
+/-! ## the context's history does not matter -/
+
+/-- **`json_parse`'s result is independent of what the context has seen before.**  The model has no
+parser state that survives a call: `Rfc.parse` and C02's `Usual.C02.parse` are functions of the
+document alone (the C function must re-initialise `parent`, `cur_key`, `top`, `lasterr`, `linenr` at
+entry to match that), and the only context state the model has is the heap of values.  This theorem
+is the statement over that state: after ANY two histories of builder calls and loaded (parsed)
+trees — including every failing call — loading the same parsed value yields the same tree at the
+fresh id.  Failed parses allocate nothing the model can see; on the implementation the frame
+condition "a re-parse gives the same tree in a fresh context, in the tree's own context and in a
+context that has seen failed and successful parses" is monitored on every run (`rtf`/`rts`/`rt`
+after `poison`, checks/C03.py `rt_monitor`). -/
+theorem parse_result_independent_of_history (cyc : Bool) (ops₁ ops₂ : List Op)
+    (strtod : Bytes → Option UInt64) (doc : Bytes) (v : JVal)
+    (h : parse strtod doc = some v) (hz : v.noNul) (hk : v.shortKeys) :
+    (reachC cyc (ops₁ ++ loadOps v (reachC cyc ops₁).cells.length)).value (reachC cyc ops₁).cells.length =
+    (reachC cyc (ops₂ ++ loadOps v (reachC cyc ops₂).cells.length)).value (reachC cyc ops₂).cells.length := by
+  rw [(parsed_tree_is_built cyc ops₁ strtod doc v h hz hk).1,
+    (parsed_tree_is_built cyc ops₂ strtod doc v h hz hk).1]
+
+example : (reachC true ([] ++ loadOps (.list [.int 1]) 0)).value 0 =
+    (reachC true ([.newDict, .putS 0 [0x61] (.int (2 ^ 60)), .newList, .append (some 1) (some 1)] ++
+      loadOps (.list [.int 1]) 2)).value 2 := by decide
+
 end UsualProps.C03
